@@ -26,10 +26,10 @@ CLAIMED = {
          "the rate bound over time (token refill arithmetic against wall-clock intervals); newQPSLimiter divides by zero for QPSInterval > 1s (crash at configuration time, outside the rules); limit updates racing takes beyond the locking discipline (C14.2)"),
  "C05": ("per-protocol reach-set tables (writer/reader agreement), counter-direction sibling check, call classification of connection reads, buffer-alias value flow (go/ssa)",
          "C05.1 all nine Proto implementations cover the full field table in Pack and Unpack (frozen exemptions; websocket status = known finding F4); C05.2 thrift size counters per direction; C05.3 one connection write per frame; C05.5 only full reads on receive paths; C05.6 service method / body never alias the pooled read buffer (incl. gjson sub-strings); C05.7 the filter pipe is undone in the reverse of the order it was applied; C05.8 packed payloads never alias released pooled buffers; C05.9 lengths are never truncated into a narrower wire field; C05.10 httproto request line before headers; C05.11 thrift headers per message; C05.12 websocket unmasking positional across reads",
-         "round-trip equality over the message space (escaping of quotes/backslashes in the JSON protocols, length boundaries, metadata multimap order), third-party thrift/protobuf framing, chunking inside library readers"),
+         "round-trip equality over the message space as values (length boundaries, metadata multimap order, header fields that strconv.Quote renders: status/meta query strings are ASCII by construction), third-party thrift/protobuf framing, chunking inside library readers"),
  "C06": ("dominance of the read-limit check over wire-sized allocations, symbolic bound checking (linear forms over SSA atoms + interval analysis refined by dominating comparisons), error-use analysis, cycle analysis of accumulating reads, defer/recover scan, no-go static reachability (go/ssa)",
          "C06.1 every wire-sized buffer (ChangeLen/make) only after an error-checked SetSize; C06.2 SetSize errors honoured on all receive paths; C06.3 accumulating read loops are bounded; C06.4 recover barriers on reader, handlers and public send/receive entry points; C06.5 raw length arithmetic checked; C06.6 handler goroutines never close their own session synchronously; C06.7 allocated <= the quantity the limit check examined, proved symbolically with wrap-aware linear forms and intervals; C06.8 no narrow-integer arithmetic on receive paths can leave its type; C06.9 input ending during Close leaves no caller blocked (drain in ActiveClosing); C06.10 the log renderer (running after the recover barriers) has no unguarded look-ahead index",
-         "absence of decoder panics (index out of range on short frames is contained by C06.4, not excluded); allocations inside thrift/protobuf/gzip libraries (gzip.OnUnpack inflates without bound); websocket frames are bounded by the websocket layer's own MaxPayloadBytes; wedging by a slow peer (timeouts)"),
+         "absence of decoder panics (index out of range on short frames is contained by C06.4, not excluded); allocations inside the thrift/protobuf decoders (the gzip filter's output is bounded: C06.11); websocket frames are bounded by the websocket layer's own MaxPayloadBytes; wedging by a slow peer (timeouts)"),
  "C12": ("loop-direction matching, error-flow analysis on receive paths, dominance, pooled-buffer escape analysis (go/ssa)",
          "C12.1 OnPack descending / OnUnpack ascending, errors stop; C12.2 Append refuses unregistered ids and its error is checked on every receive path; C12.3 reply inherits the caller's pipe before handler/stages/writes; C12.4 md5 verify guards the data; C12.5 every protocol carries the pipe; C12.6 no pooled buffer escapes its release; C12.7 the reply's pipe is never reset on the reply path; C12.8 the pipe section is measured without wrapping arithmetic (a pipe of 255 filters); C12.9 shipped filters keep no per-message state; C12.10 thrift pipe header cleared and stored per message",
          "exact inversion for all payloads (gzip/md5 library correctness); user-registered filters"),
@@ -67,6 +67,24 @@ CLAIMED = {
          "C20.1 every field of Message, handlerCtx, Args, XferPipe, ByteBuffer, socket is reset to its default on every path of the reset function (a new field without reset fails by construction); C20.2 each sync.Pool has the reset on its only Put or only Get side; C20.3 getContext = clean then reInit on all paths, reInit installs fresh swap + session; C20.4/5 no pooled buffer/object outlives its release; C20.6 recycled metadata slots are fully overwritten; C20.7 no object is released twice; delegated resets (SetID(\"\")) are followed into the setter",
          "user-defined fields of pooled controller structs (by design); value semantics of the called sub-reset methods beyond their own C20.1 instance; exempt fields listed with reasons in rules_c20.go"),
 }
+
+# clauses added in round 4 (appended to the decided-clauses text of the property)
+EXTRA4 = {
+ "C01": "C01.12 bodies and service methods over the JSON-framed protocols reach the frame only through an escaper covering the reader's table (= C05.13); C01.13 thrift write headers cleared and stored per message (= C12.10)",
+ "C02": "C02.14 a redial attempt rejected by a dial hook hands the session back in Redialing (from Preparing the closing path waits for the very call that triggered the redial)",
+ "C04": "C04.14 over HTTP the JSON form of a non-OK status is offered to the announced filter before it is written (error replies keep the caller's pipe)",
+ "C05": "C05.13 the JSON-framed protocols escape body and service method with an escaper that distinguishes the quote, the backslash and every control byte (writer's table covers the gjson reader's); C05.14 a buffer made on a pool miss is as empty as a recycled one",
+ "C06": "C06.11 every read-to-exhaustion of a compress/* reader is bounded by io.LimitReader(configured limit) and SetMessageSizeLimit forwards the limit to the filters; C06.12 every variable index on the log path has a lower bound >= 0 (interval analysis)",
+ "C07": "C07.14 at every establishment site the index insert dominates the Ok store or lies on every path after it; C07.15 the framework's own close on an unsupported message type is asynchronous (= C06.6)",
+ "C08": "C08.9 every established session is indexed (peer Close finds it; = C07.14); C08.10 the write deadline is re-armed for every frame (= C03.13)",
+ "C09": "C09.10 AsyncCall holds the per-call mutex from the publication to its return, ordering PostWriteCall before the reply stages (= C02.3)",
+ "C12": "C12.11 an error reply over HTTP is packed with the announced filter (= C04.14)",
+ "C13": "C13.12 a redialed session is re-indexed on every path (= C07.14); C13.13 a rejected redial attempt restores Redialing (= C02.14)",
+ "C20": "C20.8 a buffer made on a pool miss is empty (zero-length B, nothing but Reset called on it)",
+}
+for _p, _t in EXTRA4.items():
+    _tech, _dec, _nd = CLAIMED[_p]
+    CLAIMED[_p] = (_tech, _dec + "; " + _t, _nd)
 
 NOT_YET = "rules for this property are not implemented yet in this revision of the checker (see DESIGN.md section 3 for the plan)"
 NA = {
